@@ -1,6 +1,7 @@
 package main
 
 import (
+	"sort"
 	"fmt"
 	"go/constant"
 	"go/token"
@@ -71,7 +72,7 @@ func (ix *idxEngine) table() []tableEntry {
 				want := map[string]bool{"Left": false, "Right": false, "Center": false}
 				for _, cf := range dominatingConds(o.In.Block()) {
 					b, ok := cf.Cond.(*ssa.BinOp)
-					if !ok || b.Op != token.EQL || cf.Val {
+					if !ok || !(b.Op == token.EQL && !cf.Val || b.Op == token.NEQ && cf.Val) {
 						continue
 					}
 					for _, side := range []ssa.Value{b.X, b.Y} {
@@ -218,10 +219,15 @@ func (ix *idxEngine) table() []tableEntry {
 					return false, "no call sites"
 				}
 				for _, s := range sites {
-					for _, k := range []int{1, 2} {
-						name, ok := constString(s.Call.Common().Args[k])
-						if !ok || !strFields[name] {
-							return false, fmt.Sprintf("call at %s passes a name that is not a string field of Decoration", c.Pos(s.Call.Pos()))
+					pairs, okP, whyP := ix.defaultPairsAt(s.Call, o.Fn)
+					if !okP {
+						return false, fmt.Sprintf("call at %s: %s", c.Pos(s.Call.Pos()), whyP)
+					}
+					for _, pr := range pairs {
+						for _, name := range pr {
+							if !strFields[name] {
+								return false, fmt.Sprintf("call at %s passes %q, which is not a string field of Decoration", c.Pos(s.Call.Pos()), name)
+							}
 						}
 					}
 					if _, isNilConst := s.Call.Common().Args[0].(*ssa.Const); isNilConst {
@@ -335,23 +341,16 @@ func (ix *idxEngine) populateComplete(need map[string]bool) (bool, string) {
 	// defaulted targets, in order: source must already be filled
 	ok := true
 	why := ""
-	for _, b := range pop.Blocks {
-		for _, in := range b.Instrs {
-			if staticCallee(in) != def {
-				continue
-			}
-			cc := callCommon(in)
-			to, ok1 := constString(cc.Args[1])
-			from, ok2 := constString(cc.Args[2])
-			if !ok1 || !ok2 {
-				ok, why = false, "non-constant default"
-				continue
-			}
-			if !filled[from] {
-				ok, why = false, "default for "+to+" is taken from "+from+" which is not yet guaranteed non-empty"
-			}
-			filled[to] = true
+	pairs, okP, whyP := ix.defaultPairs(pop, def)
+	if !okP {
+		ok, why = false, whyP
+	}
+	for _, pr := range pairs {
+		to, from := pr[0], pr[1]
+		if !filled[from] {
+			ok, why = false, "default for "+to+" is taken from "+from+" which is not yet guaranteed non-empty"
 		}
+		filled[to] = true
 	}
 	if !ok {
 		return false, why
@@ -530,4 +529,48 @@ func sortedKeys(m map[int64]bool) []int64 {
 		}
 	}
 	return out
+}
+
+// defaultPairsAt: the (target, source) name pairs one call of decorateDefaultTo can pass: a pair of constants, or
+// every row of a constant table when both names are fields of the element a full loop over that table is visiting.
+func (ix *idxEngine) defaultPairsAt(call ssa.CallInstruction, def *ssa.Function) ([][2]string, bool, string) {
+	cc := call.Common()
+	to, ok1 := constString(cc.Args[1])
+	from, ok2 := constString(cc.Args[2])
+	if ok1 && ok2 {
+		return [][2]string{{to, from}}, true, ""
+	}
+	t1, f1, e1 := ix.c.tableElemField(cc.Args[1])
+	t2, f2, e2 := ix.c.tableElemField(cc.Args[2])
+	if t1 == nil || t2 == nil || t1.G != t2.G || e1 != e2 {
+		return nil, false, "the names are neither constants nor two fields of the element of a constant table being visited in full"
+	}
+	var out [][2]string
+	for _, row := range t1.Rows {
+		out = append(out, [2]string{row[f1], row[f2]})
+	}
+	return out, true, ""
+}
+
+// defaultPairs: all pairs applied by fn, in execution order (calls are taken in block order; a table-driven call
+// contributes its rows in table order).
+func (ix *idxEngine) defaultPairs(fn, def *ssa.Function) ([][2]string, bool, string) {
+	var out [][2]string
+	order := rpoOrder(fn)
+	blocks := append([]*ssa.BasicBlock(nil), fn.Blocks...)
+	sort.SliceStable(blocks, func(i, j int) bool { return order[blocks[i]] < order[blocks[j]] })
+	for _, b := range blocks {
+		for _, in := range b.Instrs {
+			if staticCallee(in) != def {
+				continue
+			}
+			ci, _ := in.(ssa.CallInstruction)
+			prs, ok, why := ix.defaultPairsAt(ci, def)
+			if !ok {
+				return nil, false, why
+			}
+			out = append(out, prs...)
+		}
+	}
+	return out, true, ""
 }
